@@ -1334,6 +1334,40 @@ def case_count_sweep(ctx, counts):
         ctx.judged(("count-sweep", m), nontrivial=m > 0, sample={"clauses": m})
 
 
+def case_block_boundaries(ctx, powers):
+    """A clause written over many lines (one literal per line) placed so that it straddles the 2^k-th character of the
+    text, for every k in a range: a reader that consumes its input in blocks must carry the unfinished clause over."""
+    K = cnf_classes()["CNF"] if isinstance(cnf_classes(), dict) else list(cnf_classes())[0]
+    with Scratch() as scratch:
+        for k in powers:
+            for shift in (0, 37):
+                lits = [((i * 7) % 60 + 1) * (1 if i % 3 else -1) for i in range(40)]
+                lits = [l for i, l in enumerate(lits) if -l not in lits[:i] and l not in lits[:i]]
+                head = "p cnf 60 3\n1 -2 0\n"
+                spread = "\n".join(str(l) for l in lits) + "\n0\n"
+                tail = "-3 4 0\n"
+                pad_total = (1 << k) - len(head) - len(spread) // 2 - shift
+                if pad_total < 4:
+                    continue
+                line = "c " + "x" * 997 + "\n"
+                pad = line * (pad_total // len(line)) + "c " + "y" * max(0, pad_total % len(line) - 3) + "\n"
+                text = head + pad + spread + tail
+                want = [[1, -2], lits, [-3, 4]]
+                path = os.path.join(scratch.dir, "b%d_%d.cnf" % (k, shift))
+                with open(path, "w") as f:
+                    f.write(text)
+                for route, run in (("stringio", lambda: ctx.call(K.from_file, io.StringIO(text))), ("path", lambda: ctx.call(K.from_file, path))):
+                    st, F = run()
+                    ctx.count("block_boundary_texts")
+                    label = "a %d-character DIMACS text whose 40-line clause straddles character 2^%d, read through %s" % (len(text), k, route)
+                    if st == "exc":
+                        ctx.violation("dimacs-reader:block-boundary:refused:%s" % type(F).__name__, "%s raised %r" % (label, F))
+                    elif F.number_of_variables() != 60 or [list(c) for c in F] != want:
+                        ctx.violation("dimacs-reader:block-boundary:misread", "%s: read %r" % (label, [list(c) for c in F][:3]))
+                    ctx.judged(("block-boundary", k, shift, route), nontrivial=True, sample={"chars": len(text), "power": k, "route": route})
+                os.unlink(path)
+
+
 def case_export_histories(ctx, rseed, count):
     """One formula object exported several times with edits in between: every export must show the current state."""
     r = ctx.rng("c06hist", rseed)
@@ -1420,6 +1454,8 @@ def _workload(tier, seed):
     sweep = list(range(seed % 7, 2300, 7)) if q else list(range(0, 5200))
     for i in range(0, len(sweep), 80):
         yield "count_sweep", {"counts": sweep[i:i + 80]}
+    for ks in ([10, 12, 13], [16, 17], [20], [22], [23]) if q else ([9, 10, 11, 12, 13, 14, 15], [16, 17, 18], [19, 20], [21], [22], [23], [24]):
+        yield "block_boundaries", {"powers": ks}
     # writer / round trip
     for mode, batches in (("plain", 4 if q else 60), ("unusual", 12 if q else 240), ("breaks", 4 if q else 40)):
         for b in range(batches):
